@@ -83,6 +83,25 @@ var corpus = []Case{
 	{Note: "archive title outside", Prepop: "empty", Pushes: []Push{arch("../outdir", reg("../outdir/x"))}},
 	{Note: "manifest layer title outside", Prepop: "empty", Pushes: []Push{{Kind: "restore", Title: "../victim"}}},
 	// later additions
+	// seeded C11-r2-2: clean-up after a failed named-blob push removed the (empty) working directory and its empty ancestors
+	{Note: "named blob with a nested title fails while copying (wrong digest) into an empty working directory at the end of a chain of empty directories", Prepop: "empty", Chain: true, Pushes: []Push{
+		{Kind: "blob", Title: "a/b/f.txt", Fail: "digest"}}},
+	{Note: "named blob fails half-way (reader error), working directory not yet existing, chain of empty directories", Prepop: "absent", Chain: true, Pushes: []Push{
+		{Kind: "blob", Title: "f.txt", Fail: "reader"}, blob("after.txt")}},
+	{Note: "short content for a named blob in a chain of empty directories", Prepop: "empty", Chain: true, Pushes: []Push{
+		{Kind: "blob", Title: "a/b/c.txt", Fail: "short"}}},
+	// seeded C11-r2-3: containment by string prefix accepts siblings named like the working directory
+	{Note: "title names a sibling FILE whose name starts with the working directory's name", Prepop: "empty", Pushes: []Push{blob("../wd.lock")}},
+	{Note: "title names a file in a sibling DIRECTORY whose name starts with the working directory's name", Prepop: "empty", Pushes: []Push{blob("../wd-backup/x")}},
+	{Note: "absolute title of such a sibling", Prepop: "empty", Pushes: []Push{blob("$WD.lock")}},
+	{Note: "absolute title below such a sibling directory", Prepop: "sub", Pushes: []Push{blob("$WD-backup/new/x")}},
+	{Note: "archive unpacked into such a sibling directory", Prepop: "empty", Pushes: []Push{arch("../wd-backup", reg("../wd-backup/x"), dir("../wd-backup/nd"))}},
+	{Note: "archive unpacked into such a sibling directory, absolute", Prepop: "empty", Pushes: []Push{arch("$WD-backup", reg("$WD-backup/x"))}},
+	{Note: "manifest layer titled like such a sibling", Prepop: "empty", Pushes: []Push{{Kind: "restore", Title: "../wd.lock"}}},
+	{Note: "planted symlink really leading to such a sibling, then a named blob through it", Prepop: "empty", Pushes: []Push{
+		arch("pkg", dir("pkg/d"), sym("pkg/d/s", ".."), sym("pkg/d/f", "s/../../wd.lock"), sym("pkg/d/o", "s/../../wd-backup")), blob("pkg/d/f"), blob("pkg/d/o/x")}},
+	{Note: "entry name / link target naming such a sibling", Prepop: "empty", Pushes: []Push{
+		arch("pkg", reg("pkg/../../wd.lock")), arch("pkg2", sym("pkg2/e", "../../wd.lock")), arch("pkg3", link("pkg3/h", "$WD.lock"), reg("pkg3/h"))}},
 	{Note: "regular entry over a DANGLING planted symlink: creates a new file next to the working directory (seeded defect C11-4: Stat instead of Lstat)", Prepop: "empty", Pushes: []Push{
 		arch("pkg", dir("pkg/d"), sym("pkg/d/s", ".."), sym("pkg/d/e", "s/../../new"), reg("pkg/d/e"))}},
 	{Note: "regular entry over a dangling planted symlink: new file in an existing outside directory", Prepop: "empty", Pushes: []Push{
